@@ -80,15 +80,6 @@ Params == 1..NP
 FRows(j) == SortedSeq(Mask(data.S, data.TH[j]))
 X(i) == XRow(data.S, data.obs, i)
 
-\* m^2 den^2 times the residual sum of squares of the centred regression with slope num/den
-RSS(j, num, den) ==
-  LET F == Mask(data.S, data.TH[j])
-      m == Cardinality(F)
-      sy == SumF([i \in F |-> data.TH[j][i]], F)
-      sx(a) == SumF([i \in F |-> X(i)[a]], F)
-      r(i) == den * (m * data.TH[j][i] - sy) - SumF([a \in 1..K |-> (m * X(i)[a] - sx(a)) * num[a]], 1..K)
-  IN SumF([i \in F |-> r(i) * r(i)], F)
-
 \* (a1) the slope is a least-squares slope: it satisfies the centred normal equations, and no
 \*      candidate slope of the grid has a smaller residual sum of squares
 NormalEquations ==
@@ -98,9 +89,20 @@ NormalEquations ==
     IN /\ b.den > 0
        /\ ne.A11 * b.num[1] + (IF K = 2 THEN ne.A12 * b.num[2] ELSE 0) = ne.C1 * b.den
        /\ K = 2 => ne.A12 * b.num[1] + ne.A22 * b.num[2] = ne.C2 * b.den
+\* rss(num, den) = m^2 den^2 times the residual sum of squares of the regression WITH intercept
+\* (centred data) and slope num/den
 LeastSquares ==
-  Done => \A j \in Params : \A g \in Grid :
-    RSS(j, models[j].num, models[j].den) <= RSS(j, g, 1) * models[j].den * models[j].den
+  Done => \A j \in Params :
+    LET F == Mask(data.S, data.TH[j])
+        m == Cardinality(F)
+        sy == SumF([i \in F |-> data.TH[j][i]], F)
+        sx == [a \in 1..K |-> SumF([i \in F |-> X(i)[a]], F)]
+        yc == [i \in F |-> m * data.TH[j][i] - sy]
+        xc == [i \in F |-> [a \in 1..K |-> m * X(i)[a] - sx[a]]]
+        rss(num, den) == SumF([i \in F |-> LET r == den * yc[i] - SumF([a \in 1..K |-> xc[i][a] * num[a]], 1..K) IN r * r], F)
+        b == models[j]
+        best == rss(b.num, b.den)
+    IN \A g \in Grid : best <= rss(g, 1) * b.den * b.den
 \* (a2) adjusted = accepted - slope . (simulated - observed), for the rows of the mask in row order
 Formula ==
   Done => \A j \in Params :
